@@ -44,6 +44,10 @@ type Arg struct {
 	Digits int  `json:"digits,omitempty"` // max decimal digits, -1 = not set
 	BBox   bool `json:"bbox,omitempty"`
 	NaN    bool `json:"nan,omitempty"`
+	// document object (kind fc): N features (-1: the Features slice is nil),
+	// each holding G (nil: no geometry) and, with Props, a property map
+	N     int  `json:"n,omitempty"`
+	Props bool `json:"props,omitempty"`
 }
 
 // Call is one library call on pool arguments.
@@ -238,6 +242,41 @@ func buildPool(pool []Arg) ([]*item, error) {
 			it.b = append([]byte(a.S), spare(a.Cap, 0xAB)...)[:len(a.S)]
 		case "s:wkt", "s:hex":
 			it.s = a.S
+		case "fc":
+			if a.N < -1 || a.N > 4 {
+				return nil, fmt.Errorf("pool %d: bad feature count", i)
+			}
+			var g geom.T
+			if a.G != nil {
+				if err := validGeom(a.G, 0); err != nil {
+					return nil, err
+				}
+				var err error
+				if g, err = mgeom.Build(a.G.Clone().Norm()); err != nil {
+					return nil, fmt.Errorf("pool %d: %v", i, err)
+				}
+			}
+			fc := &geojson.FeatureCollection{}
+			if a.BBox && g != nil {
+				fc.BBox = g.Bounds()
+			}
+			if a.N >= 0 {
+				fc.Features = make([]*geojson.Feature, 0, a.N+1)
+			}
+			for k := 0; k < a.N; k++ {
+				f := &geojson.Feature{Geometry: g}
+				if k%2 == 0 {
+					f.ID = fmt.Sprintf("f%d", k)
+				}
+				if a.Props {
+					f.Properties = map[string]interface{}{"k": "v", "n": 1.5}
+				}
+				if a.BBox && g != nil && k == 0 {
+					f.BBox = g.Bounds()
+				}
+				fc.Features = append(fc.Features, f)
+			}
+			it.fc, it.g = fc, g
 		case "o:gj":
 			if a.Digits < -1 || a.Digits > 15 {
 				return nil, fmt.Errorf("pool %d: bad digits", i)
@@ -380,6 +419,35 @@ func snapshot(items []*item) []snap {
 				u = append(u, math.Float64bits(it.bd.Min(d)), math.Float64bits(it.bd.Max(d)))
 			}
 			s = append(s, u)
+		case "fc":
+			b2u := func(b bool) uint64 {
+				if b {
+					return 1
+				}
+				return 0
+			}
+			boxU := func(b *geom.Bounds) []uint64 {
+				if b == nil {
+					return []uint64{0}
+				}
+				u := []uint64{1, uint64(b.Layout())}
+				for d := 0; d < b.Layout().Stride(); d++ {
+					u = append(u, math.Float64bits(b.Min(d)), math.Float64bits(b.Max(d)))
+				}
+				return u
+			}
+			fs := it.fc.Features
+			s = append(s, []uint64{b2u(fs == nil), uint64(len(fs)), uint64(cap(fs))}, boxU(it.fc.BBox))
+			for _, f := range fs[:cap(fs)] {
+				if f == nil {
+					s = append(s, []uint64{0})
+					continue
+				}
+				s = append(s, []uint64{1, b2u(f.Geometry == nil), b2u(f.Properties == nil), uint64(len(f.Properties)), uint64(core.HashString(fmt.Sprint(f.ID)))}, boxU(f.BBox))
+			}
+			if it.g != nil {
+				snapGeom(it.g, &s)
+			}
 		case "o:gj", "o:wktenc", "o:wkbopt":
 			s = append(s, []uint64{0}) // opaque option values: nothing observable
 		default:
@@ -1066,6 +1134,12 @@ func (g *gen) newArg(kind string) Arg {
 		return Arg{K: "j", S: s, Cap: []int{0, 0, 7}[r.Intn(3)]}
 	case kind == "i":
 		return Arg{K: "i", S: c19.GenText(r), Cap: []int{0, 0, 9}[r.Intn(3)]}
+	case kind == "fc":
+		a := Arg{K: "fc", N: r.Range(-1, 3), BBox: r.Chance(0.3), Props: r.Chance(0.5)}
+		if r.Chance(0.85) {
+			a.G = g.geomOfType(g.cfg.Types[r.Intn(len(g.cfg.Types))])
+		}
+		return a
 	case kind == "o:gj":
 		return Arg{K: "o:gj", Digits: []int{-1, 0, 2, 3, 7}[r.Intn(5)], BBox: r.Chance(0.4)}
 	case kind == "o:wktenc":
@@ -1124,6 +1198,7 @@ func (prop) Generate(r *prng.Rand, phase string) any {
 	g.cfg = mgeom.SwarmCfg(r, []int{1, 2, 3, 4})
 	g.cfg.FloatMode = []int{0, 0, 0, 2}[r.Intn(4)] // mostly small values; one run in four any finite value (formatting paths, overflow paths)
 	g.cfg.Types = mgeom.AllTypes
+	g.cfg.ShareMembers = true
 	if g.cfg.MaxCoords > 8 && g.cfg.ExactCoords == 0 {
 		g.cfg.MaxCoords = 8
 	}
